@@ -8,6 +8,7 @@ from pv.programs import _jsonable
 
 ID = 'C09'
 TITLE = 'outline execution order and result'
+ANCHORS = ['plumpy.workchains:WorkChain._do_step', 'plumpy.workchains:_BlockStepper.step', 'plumpy.workchains:_IfStepper.step', 'plumpy.workchains:_WhileStepper.step', 'plumpy.workchains:_ReturnStepper.step', 'plumpy.workchains:WorkChainSpec.outline']
 LEVEL = 'exploration'
 TECHNIQUE = ('runtime monitoring against a reference interpreter: generated WorkChains record every step and predicate call; the ordered trace and '
              'the result are compared with an independent recursive interpreter of the outline AST')
